@@ -223,6 +223,8 @@ def Op.ok (h : Heap) : Op → Prop
   | .append _ a v _ => a.ok h ∧ v.ok h
   | .len a => a.ok h
   | .delete a k => a.ok h ∧ k.ok h
+  | .load _ a i => a.ok h ∧ i.ok h
+  | .swap _ i j => i.ok h ∧ j.ok h
 
 theorem arg_ok {h : Heap} (w : WF h) {a : Arg} {v : V} (ha : h.arg a = some v) (hok : a.ok h) : valOK h v := by
   cases a with
@@ -556,6 +558,8 @@ theorem wf_step {h : Heap} (w : WF h) (op : Op) (hok : op.ok h) : WF (h.step op)
         | bool _ => exact w
         | str _ => exact w
         | slice _ => exact w
+  | load y a i => simp only [Heap.step]; exact w
+  | swap x i j => simp only [Heap.step]; exact w
 
 /-- literal operands written in a program are scalars -/
 def V.scalar : V → Bool
@@ -577,6 +581,8 @@ def Op.scalarLits : Op → Bool
   | .append _ a v _ => a.scalarLit && v.scalarLit
   | .len a => a.scalarLit
   | .delete a k => a.scalarLit && k.scalarLit
+  | .load _ a i => a.scalarLit && i.scalarLit
+  | .swap _ i j => i.scalarLit && j.scalarLit
 
 theorem Arg.ok_of_scalar (h : Heap) (a : Arg) (hs : a.scalarLit = true) : a.ok h := by
   cases a with
@@ -594,12 +600,118 @@ theorem Op.ok_of_scalar (h : Heap) (op : Op) (hs : op.scalarLits = true) : op.ok
   · exact ⟨Arg.ok_of_scalar h _ hs.1, Arg.ok_of_scalar h _ hs.2⟩
   · exact Arg.ok_of_scalar h _ hs
   · exact ⟨Arg.ok_of_scalar h _ hs.1, Arg.ok_of_scalar h _ hs.2⟩
+  · exact ⟨Arg.ok_of_scalar h _ hs.1, Arg.ok_of_scalar h _ hs.2⟩
+  · exact ⟨Arg.ok_of_scalar h _ hs.1, Arg.ok_of_scalar h _ hs.2⟩
+
+theorem index_ok {h : Heap} (w : WF h) {item idx v : V} (hi : valOK h item) (hx : h.index item idx = .ok v) : valOK h v := by
+  unfold Heap.index at hx
+  cases item with
+  | slice s =>
+    simp only at hx
+    split at hx
+    · cases hx
+    · split at hx
+      · cases hx
+      · simp only [Out.ok.injEq] at hx; subst hx; exact elem_ok w s _
+  | str cs =>
+    simp only at hx
+    split at hx
+    · cases hx
+    · split at hx
+      · cases hx
+      · simp only [Out.ok.injEq] at hx; subst hx; trivial
+  | map id =>
+    simp only at hx
+    split at hx
+    · cases hm : h.maps[id]? with
+      | none => rw [hm] at hx; simp only [Out.ok.injEq] at hx; subst hx; trivial
+      | some kvs =>
+        rw [hm] at hx
+        simp only [Out.ok.injEq] at hx
+        subst hx
+        cases hl : kvs.lookup idx with
+        | none => trivial
+        | some u =>
+          have : (idx, u) ∈ kvs := by
+            have key : ∀ (l : List (V × V)), l.lookup idx = some u → (idx, u) ∈ l := by
+              intro l
+              induction l with
+              | nil => intro hh; simp [List.lookup] at hh
+              | cons p rest ih =>
+                obtain ⟨k, x⟩ := p
+                intro hh
+                rw [List.lookup_cons] at hh
+                split at hh
+                · next hk => cases hh; simp [beq_iff_eq.mp hk]
+                · exact List.mem_cons_of_mem _ (ih hh)
+            exact key _ hl
+          exact (w.entries id kvs hm _ this).2
+    · simp only [Out.ok.injEq] at hx; subst hx; trivial
+  | nil => cases hx
+  | int _ => cases hx
+  | bool _ => cases hx
+
+theorem wf_step2 {h : Heap} (w : WF h) (op : Op) (hok : op.ok h) : WF (h.step2 op).1 := by
+  cases op with
+  | load y a i =>
+    simp only [Heap.step2]
+    cases ha : h.arg a with
+    | none => simp; exact w
+    | some item =>
+      cases hi : h.arg i with
+      | none => exact w
+      | some idx =>
+        simp only
+        cases hx : h.index item idx with
+        | err m => exact w
+        | ok v => exact wf_setVar w y v (index_ok w (arg_ok w ha hok.1) hx)
+  | swap x i j =>
+    simp only [Heap.step2]
+    cases hx : h.getVar x with
+    | none => exact w
+    | some item =>
+      cases hi : h.arg i with
+      | none => cases item <;> exact w
+      | some ii =>
+        cases hj : h.arg j with
+        | none => cases item <;> exact w
+        | some jj =>
+          cases item with
+          | slice s =>
+            simp only
+            have hs := wf_getVar w hx
+            cases h1 : h.index (.slice s) jj with
+            | err m => exact w
+            | ok vj =>
+              cases h2 : h.index (.slice s) ii with
+              | err m => exact w
+              | ok vi =>
+                simp only
+                split
+                · next ki kj _ _ =>
+                  obtain ⟨w1, e1⟩ := wf_writeElem w s ki.toNat vj (index_ok w hs h1)
+                  exact (wf_writeElem w1 s kj.toNat vi (valOK_ext e1 (index_ok w hs h2))).1
+                · exact w
+          | nil => exact w
+          | int _ => exact w
+          | bool _ => exact w
+          | str _ => exact w
+          | map _ => exact w
+  | list x as => exact wf_step w _ hok
+  | mapLit x kvs => exact wf_step w _ hok
+  | copy y a => exact wf_step w _ hok
+  | index a i => exact wf_step w _ hok
+  | slice y a b e c => exact wf_step w _ hok
+  | setIndex x i v nc => exact wf_step w _ hok
+  | append y a v nc => exact wf_step w _ hok
+  | len a => exact wf_step w _ hok
+  | delete a k => exact wf_step w _ hok
 
 /-- every reachable heap is well-formed -/
 theorem wf_run : ∀ (ops : List Op) (h : Heap), WF h → (∀ op ∈ ops, op.scalarLits = true) → WF (h.run ops).1
   | [], _, w, _ => w
   | op :: ops, h, w, hs => by
     simp only [Heap.run]
-    exact wf_run ops _ (wf_step w op (Op.ok_of_scalar h op (hs op (by simp)))) (fun o ho => hs o (List.mem_cons_of_mem _ ho))
+    exact wf_run ops _ (wf_step2 w op (Op.ok_of_scalar h op (hs op (by simp)))) (fun o ho => hs o (List.mem_cons_of_mem _ ho))
 
 end Anko.Cont
